@@ -62,6 +62,25 @@ struct Tape {
   }
 };
 
+// Secondary choice stream derived from a few tape bytes (splitmix64). Decoders draw their
+// high-level choices first and derive long, low-importance choice streams (layout, separators,
+// edit positions) from a 32-bit seed read from the tape, so that an exhausted tape does not
+// starve them. It stays a pure function of the tape; seed 0 yields the all-zero (simplest) stream.
+inline std::vector<uint8_t> derive_bytes(uint32_t seed, size_t n) {
+  std::vector<uint8_t> v(n, 0);
+  if (seed == 0) return v;
+  uint64_t x = seed * 0x9E3779B97F4A7C15ULL + 0x1234567ULL;
+  for (size_t i = 0; i < n; i++) {
+    x += 0x9E3779B97F4A7C15ULL;
+    uint64_t z = x;
+    z = (z ^ (z >> 30)) * 0xBF58476D1CE4E5B9ULL;
+    z = (z ^ (z >> 27)) * 0x94D049BB133111EBULL;
+    z = z ^ (z >> 31);
+    v[i] = (uint8_t)(z >> 24);
+  }
+  return v;
+}
+
 inline std::string to_hex(const std::vector<uint8_t> &v) {
   static const char *d = "0123456789abcdef";
   std::string s;
